@@ -39,7 +39,7 @@ def run(res, args):
     if not ok:
         return res.finish()
     rng = common.rng_for(res.seed, "c05")
-    mult = 1 if res.tier == "quick" else 15
+    mult = 1 if res.tier == "quick" else 45
     if not (res.proof_ok and res.corr_ok):
         mult *= 5
     specs = []
